@@ -41,7 +41,9 @@ let () = serve (fun fn req ->
   | "strip" -> of_cps (strip (jcps (jfield req "s")))
   | "create" ->
       of_option of_stream
-        (create_stream h384 aes_e (jnat (jfield req "maxb")) (jcps (jfield req "name")) (jbytes (jfield req "key"))
+        (create_stream_layout h384 aes_e (jnat (jfield req "maxb"))
+           (match jfield_opt req "old_sort" with Some (JBool b) -> b | _ -> false)
+           (jcps (jfield req "name")) (jbytes (jfield req "key"))
            (ivf_of req) (jbytes (jfield req "file")))
   | "split" -> of_list of_bytes (split (jnat (jfield req "maxb")) (jbytes (jfield req "file")))
   | "decrypt" ->
